@@ -304,15 +304,103 @@ class Streams2(Streams):
                               {"stream": "mean", "case": desc, "request": rq, "scale_request": rq2, "semantic_requests": sems},
                               bad_sem[0] if bad_sem else (sms[0] if sms else "no-semantic-request"))
 
+    # ---- 11. STRIDED_SLICE masks ---------------------------------------------------------------------------
+    def stream_slice(self, n):
+        from ethosu.vela.data_type import DataType
+        from ethosu.vela.operation import Op
+        from ethosu.vela.tensor import create_const_tensor
+        from ethosu.vela.tflite_model_semantic import TFLiteSemantic
+
+        ck, rng = self.ck, self.rng
+        rows = []
+        # which variant does the tree under test implement: values beyond the dimension stored as they are / clamped (repair C01-51)
+        probe_t = create_const_tensor("probe", [1], DataType.int32, [9])
+        variant = "clamp" if list(TFLiteSemantic._get_slice_offsets([4], probe_t, 0, is_begin=False)) == [4] else "raw"
+        ck.count("rw2_slice_variant_" + variant)
+        for i in range(n):
+            rank = rng.choice([4, 4, 3, 2])
+            shape = [rng.randint(1, 9) for _ in range(rank)]
+            mode = rng.choice(["plain", "plain", "newaxis", "shrink", "short"])
+            nm = sm = 0
+            nspec = rank
+            if mode == "newaxis":
+                nnew = rng.randint(1, 4 - rank) if rank < 4 else 0
+                nspec = rank + nnew
+                for pos in rng.sample(range(nspec), nnew):
+                    nm |= 1 << pos
+            elif mode == "shrink":
+                for pos in rng.sample(range(rank), rng.randint(1, max(1, rank - 1))):
+                    sm |= 1 << pos
+            elif mode == "short":
+                nspec = rng.randint(1, rank)
+            bm = rng.getrandbits(nspec) if rng.random() < 0.5 else 0
+            em = rng.getrandbits(nspec) if rng.random() < 0.5 else 0
+            begin, end = [], []
+            idx = 0
+            wild = rng.random() < 0.12           # values beyond the dimension: the reference clamps them
+            for pos in range(nspec):
+                if nm & (1 << pos):
+                    begin.append(rng.choice([0, 0, 3])); end.append(rng.choice([0, 1, 7]))
+                    continue
+                d = shape[idx] if idx < rank else 1
+                idx += 1
+                b = rng.randint(0, d - 1)
+                e = rng.randint(b + 1, d)
+                if wild and rng.random() < 0.4:
+                    e = d + rng.randint(1, 5)
+                if wild and rng.random() < 0.2:
+                    b = -d - rng.randint(1, 3)
+                if rng.random() < 0.35:
+                    b -= d
+                if rng.random() < 0.35 and e != d:      # e == d has no negative form
+                    e -= d
+                begin.append(b); end.append(e)
+            inp = self.tens(shape, DataType.int8, 0.05, 1, "in")
+            bt = create_const_tensor("begin", [nspec], DataType.int32, begin)
+            et = create_const_tensor("end", [nspec], DataType.int32, end)
+            st = create_const_tensor("strides", [nspec], DataType.int32, [1] * nspec)
+            out_t = self.tens([1], DataType.int8, 0.05, 1, "out")
+            attrs = {"ellipsis_mask": 0, "new_axis_mask": nm, "shrink_axis_mask": sm, "begin_mask": bm, "end_mask": em}
+            op = self.testutil.create_op(Op.StridedSlice, [inp, bt, et, st], out_t, attrs=attrs, set_ifm_ofm_shapes=False)
+            sem = None
+            try:
+                valid, _ = TFLiteSemantic.constraint_slice_ranges(op)
+                ob, oe = [int(v) for v in op.attrs["offset_begin"]], [int(v) for v in op.attrs["offset_end"]]
+                real = f"ok {csv(ob)} {csv(oe)} {int(bool(valid))}"
+                if valid:
+                    sem = f"rwsem2_slice {csv(shape)} {csv(begin)} {csv(end)} {bm} {em} {sm} {nm} {csv(ob)} {csv(oe)}"
+            except Exception as e:  # noqa: B902
+                real = "raises:" + type(e).__name__
+            rows.append(((mode, tuple(shape), tuple(begin), tuple(end), bm, em, sm, nm), f"rw2_slice {variant} {csv(shape)} {csv(begin)} {csv(end)} {bm} {em} {sm} {nm}",
+                         real, sem, wild))
+        outs = self.model([r[1] for r in rows])
+        sem_outs = iter(self.model([r[3] for r in rows if r[3] is not None]))
+        for (desc, rq, real, sq, wild), m in zip(rows, outs):
+            self.evaluations += 1
+            sm_ = next(sem_outs) if sq is not None else "not-valid"
+            ck.count("rw2_slice_cases")
+            ck.count("rw2_slice_" + desc[0])
+            ck.count("rw2_slice_valid" if sq is not None else "rw2_slice_rejected")
+            self.nontrivial.add(("slice",) + desc)
+            if m != real or sm_.startswith("fail") or sm_.startswith("err"):
+                key = "strided-slice:begin-end-beyond-the-dimension-not-clamped" if (m == real and wild and sm_.startswith("fail")) else None
+                self.disagree("_get_slice_offsets/constraint_slice_ranges", f"mode,shape,begin,end,begin_mask,end_mask,shrink,new_axis={desc}: model '{m}', real '{real}'",
+                              {"stream": "slice", "case": desc, "request": rq, "semantic_request": sq}, sm_, key=key)
+
     # ---- driver ------------------------------------------------------------------------------------
     def run(self):
         t = self.ck.thorough
         self.stream_tconv(2000 if t else 400)
         self.stream_groups(1000 if t else 200)
         self.stream_mean(2000 if t else 400)
+        self.stream_slice(4000 if t else 800)
 
 
-def run(ck):
+def run(ck, base=None):
     s = Streams2(ck)
     s.run()
+    if base is not None:       # the totals of check_C01 are read from the first stream object
+        base.evaluations += s.evaluations
+        base.nontrivial |= s.nontrivial
+        base.disagreements += s.disagreements
     return s
